@@ -346,6 +346,7 @@ class Executor:
         unexpected_input_changes = len(new_inp_hashes) > 0
 
         async with self.db:
+            self._flag_inputs_not_final(run, inp_hashes)
             new_hash, wants_defer = self._classify_execution(
                 run, new_hash, new_inp_hashes, unexpected_input_changes
             )
@@ -378,6 +379,29 @@ class Executor:
     #
     # Job function helper methods
     #
+
+    def _flag_inputs_not_final(self, run: Run, start_hashes: Mapping[str, FileHash]) -> None:
+        """Flag inputs whose recorded hash was replaced while the command was running.
+
+        `Workflow.mark_step_pending` skips a RUNNING step, so nothing else reruns a step whose
+        input was rebuilt (its producer was executed again) or confirmed anew during its command.
+        The post-run hash check compares the disk with the hash recorded *now*,
+        hence it cannot see such a change either.
+        Such inputs are reported as unfresh, which makes the step run again.
+        """
+        for rec in run.step.inp_paths():
+            if rec.state not in (FileState.BUILT, FileState.CONFIRMED):
+                continue
+            start_hash = start_hashes.get(rec.path)
+            if start_hash is not None:
+                if start_hash != rec.hash:
+                    run.unfresh.add(rec.path)
+            elif rec.state == FileState.BUILT:
+                producer = self.workflow.find(File, rec.path).creator()
+                if isinstance(producer, Step) and self.scheduler.ran_concurrently(
+                    producer.i, run.step.i
+                ):
+                    run.unfresh.add(rec.path)
 
     def _classify_execution(
         self,
